@@ -162,7 +162,7 @@ def drive(recipe):
     B = np.array(recipe["B"], dtype=float)
     t = {"kind": recipe["kind"], "A": recipe["A"], "B": recipe["B"], "q": recipe["q"],
          "mirror": bool(recipe["mirror"]), "exc": "", "finite": True,
-         "R": [[0] * 3] * 3, "AR": [], "rmsd": 0,
+         "R": [[0] * 3] * 3, "AR": [], "rmsd": 0, "rmsd_alt": [],
          "meta": {"recipe": recipe, "source": "%s/%s/%s" % (recipe["kind"], recipe["shape"], recipe["relation"]),
                   "impl_call": "", "nontrivial": recipe["relation"] != "rotated" or recipe["shape"] != "generic"}}
     try:
@@ -179,6 +179,11 @@ def drive(recipe):
                 if how == "f32":
                     return X.astype(np.float32)
                 return X.copy()
+            # a change of length unit by an exact power of two (coordinates in nm, cm, m ...): the optimal rotation does not
+            # depend on it, reoriented points and RMSD scale with it
+            sc = math.ldexp(1.0, int(recipe.get("scale2", 0))) if how in ("float", "f32") else 1.0
+            if sc != 1.0:
+                A, B = A * sc, B * sc
             a1, b1 = arg(A), arg(B)
             kabsch_rotation_matrix(a1, b1), reorient_points(a1, b1), rmsd_points(a1, b1)
             if not (np.array_equal(np.asarray(a1, dtype=float), A) and np.array_equal(np.asarray(b1, dtype=float), B)):
@@ -193,8 +198,18 @@ def drive(recipe):
             if R.shape != (3, 3) or AR.shape != A.shape:
                 t["exc"] = "shape"
                 return t
-            t["AR"] = [[_qi(x) for x in row] for row in AR]
-            t["rmsd"] = _qi(rm)
+            t["AR"] = [[_qi(x / sc) for x in row] for row in AR]
+            t["rmsd"] = _qi(rm / sc)
+            # an explicit request for reorientation in any other spelling is either honoured or refused - never silently ignored
+            t["rmsd_alt"] = []
+            for flag in (True, 1, "kabsch", "Kabsch", "quaternion"):
+                alt = {"flag": repr(flag), "exc": "", "v": 0}
+                try:
+                    v = float(rmsd_points(arg(A), arg(B), reorient=flag)) / sc
+                    alt["v"] = _qi(v) if math.isfinite(v) and abs(v) < 1e6 else -1
+                except Exception as e:
+                    alt["exc"] = type(e).__name__
+                t["rmsd_alt"].append(alt)
         else:
             from chmpy.core import Molecule
             from chmpy.core.dimer import Dimer
@@ -229,6 +244,13 @@ def drive(recipe):
             else:
                 ma = Molecule.from_arrays(z, A.copy())
                 mb = Molecule.from_arrays(z, B.copy())
+            if recipe.get("crystal_props"):
+                # two different molecules of one asymmetric unit (Z' = 2, or a P1 description): both are generated by the
+                # identity operation, which says nothing about how they are oriented relative to each other
+                for k, m in enumerate((ma, mb)):
+                    m.properties["generator_symop"] = np.full(len(z), 16484)
+                    m.properties["asym_mol_idx"] = k
+                    m.properties["asymmetric_unit_atoms"] = np.arange(len(z)) + k * len(z)
             dim = Dimer(ma, mb, transform_ab="calculate")
             tr = dim.transform_ab
             if tr is None:
@@ -280,8 +302,15 @@ def make_recipes(ctx, emitted=()):
         for _ in range(cnt * k):
             rec.append(make_points_recipe(rng, shape, rel))
     for rel, cnt in (("rotated", 20), ("mirrored", 10), ("noisy", 10)):
-        for _ in range(cnt * k):
-            rec.append(make_dimer_recipe(rng, rel))
+        for i in range(cnt * k):
+            r = make_dimer_recipe(rng, rel)
+            if i % 2 and not r.get("used_before"):
+                r["crystal_props"] = True
+            rec.append(r)
+    # other length units
+    for i, r in enumerate(rec):
+        if r["kind"] == "points" and r.get("as", "float") in ("float", "f32") and i % 4 == 1:
+            r["scale2"] = [-20, -27, -34, 20, -17][(i // 4) % 5] if r.get("as", "float") == "float" else [-10, 10][(i // 4) % 2]
     # smallest sizes and chiral tetrahedra (reflection branch decides)
     for _ in range(10 * k):
         rec.append(make_points_recipe(rng, "generic", "mirrored", n=4))
